@@ -590,3 +590,9 @@ frame("gotranx.codegen.c.GotranCCodePrinter", ["_print_Float", "_print_Piecewise
 frame("gotranx.codegen.jax.JaxPrinter", ["_print_Assignment"], properties=("C03",))
 frame("gotranx.codegen.ode.BaseGotranODECodePrinter", ["_print_Relational", "_print_Exp1", "_print_Or", "_print_And", "_print_Piecewise"],
       acknowledged=["_print_BooleanFalse", "_print_BooleanTrue"], properties=("C11",))
+
+
+# everything in this module is verified on instances: labelled bounded in the evidence, never counted as proved for all inputs
+for _q, _c in CONTRACTS.items():
+    if _q.startswith((PP, OP, TP, TJ, TC, CP, JP)) or _q == "gotranx.codegen.c.bool_to_int":
+        _c.bounded = True
